@@ -5,7 +5,12 @@ d=$1; shift
 wt=/tmp/seedwt-$$
 git -C /repo worktree add --detach $wt HEAD -q || exit 2
 trap 'git -C /repo worktree remove --force '$wt'; git -C /repo worktree prune' EXIT
-git -C $wt apply "$d/patch.diff" || { echo "patch does not apply"; exit 2; }
+if ! git -C $wt apply "$d/patch.diff" 2>/dev/null; then
+  # the change was made against an earlier commit of /repo (recorded in base.txt) and touches lines repaired since
+  [ -f "$d/base.txt" ] || { echo "patch does not apply and no base commit recorded"; exit 2; }
+  git -C $wt checkout -q --detach "$(cat $d/base.txt)" && git -C $wt apply "$d/patch.diff" || { echo "patch does not apply"; exit 2; }
+  echo "(applied on its base commit $(cut -c1-7 $d/base.txt))"
+fi
 for p in "$@"; do
   echo "=== $p on $(basename $d)"
   VERIF_REPO=$wt /verif/check $p 2>&1 | grep -E 'VIOLATION|differing|does not allow|KNOWN|BROKEN|violations|race detector:|input:' | head -${SEEDLINES:-8}
